@@ -1,5 +1,6 @@
 import FFSM2.Props.History
 import FFSM2.Props.C02
+import FFSM2.Props.C07
 /-!
 # C02 over whole histories: the outcome of every processing point, from any world
 
@@ -120,6 +121,80 @@ theorem C11_history_update_prev (cfg : Cfg) (beh : Beh) (w : World) (k i : Nat) 
   rw [if_pos hact, onCore_fst, World.get_put_same] at hget
   cases hget
   exact (processRequest_spec ⟨cfg, beh, i, k⟩ (prelude ⟨cfg, beh, i, k⟩ .preUpdate .update .postUpdate { core := c }).1).2.2.1 hh
+
+
+/-- every delivery of the applied change shows the applied transition as `currentTransition()` -/
+theorem allCb_changeToRequested_current (env : Env) (cur : Tr) :
+    AllCb (fun _ _ o => o.current = some cur.canon) (changeToRequested env cur) := by
+  have key : ∀ (m : Method) (hm : m.flavour ≠ .const) (sid : Nat),
+      AllCb (fun _ _ o => o.current = some cur.canon) (deliver env m sid cur {}) :=
+    fun m hm sid => allCb_deliver env m sid cur {} (fun _ _ c => observe_current env m hm sid cur {} c)
+  unfold changeToRequested
+  intro s
+  dsimp only
+  split
+  · exact (AllCb.seq (AllCb.seq (AllCb.seq (key .exit (by decide) _) (allCb_modifyCore _ _)) (allCb_modifyCore _ _))
+      (allCb_dep fun s0 => key .enter (by decide) _)) s
+  · exact (AllCb.seq (allCb_modifyCore _ _) (key .reenter (by decide) _)) s
+
+theorem allCb_applySurvivor_current (env : Env) (cur : Tr) :
+    AllCb (fun _ _ o => o.current = some cur.canon) (applySurvivor env cur) := by
+  unfold applySurvivor
+  intro s
+  dsimp only
+  split
+  · exact (AllCb.seq (allCb_modifyCore _ _) (allCb_changeToRequested_current env cur)) s
+  · intro e he; cases he
+
+/-- the lifecycle deliveries of a processing point all show the surviving request as `currentTransition()` -/
+theorem processRequest_life_current (env : Env) (s : St) :
+    ∀ e ∈ (processRequest env s).2, ∀ key vis o, e = Ev.cb key vis o → key.method.isLife = true →
+      o.current = some (survivor {} (processRounds env s)).canon := by
+  intro e he key vis o hk hl
+  unfold processRequest at he
+  by_cases hv : s.core.request.valid = true
+  · simp only [hv, if_true] at he
+    have hcur : (substLoop (guardRound env) (substFuel env.cfg.L) {} s).1.2 = survivor {} (processRounds env s) := by
+      rw [substLoop_current]; simp [processRounds, hv]
+    rcases List.mem_append.mp he with he | he
+    · -- guard rounds deliver no lifecycle callback
+      have hq := (substLoop_quiet (guardRound env) (stable_guardRound env) (noLife_guardRound env) (substFuel env.cfg.L) {} s).2
+      have : e ∈ (substLoop (guardRound env) (substFuel env.cfg.L) {} s).2.filter Ev.isLife := by
+        rw [List.mem_filter]; exact ⟨he, by rw [hk]; exact hl⟩
+      rw [hq] at this; cases this
+    · rw [hcur] at he
+      have hall : AllCb (fun _ _ o => o.current = some (survivor {} (processRounds env s)).canon)
+          (applySurvivor env (survivor {} (processRounds env s)) ⋙ finishProcessing env (survivor {} (processRounds env s))) :=
+        AllCb.seq (allCb_applySurvivor_current env _) (by unfold finishProcessing; exact allCb_modifyCore _ _)
+      exact hall _ e he key vis o hk
+  · have hv' : s.core.request.valid = false := by simpa using hv
+    simp only [hv', Bool.false_eq_true, if_false, finishProcessing, modifyCore] at he
+    cases he
+
+/-- **C07 over whole histories — the lifecycle callbacks of a call see the surviving request, payload included.**
+    Any world, `immediateChangeWith(d, p)` on an active instance: every `exit` / `enter` / `reenter` delivery of the
+    call reports as `currentTransition()` exactly the most recent request of that processing point that no guard
+    cancelled — origin, destination and payload. -/
+theorem C07_history_lifecycle_sees_survivor (cfg : Cfg) (beh : Beh) (w : World) (k i d p : Nat) (c : Core)
+    (hg : w.get i = some c) (hcond : (c.active != 255 && idOk cfg d && cfg.hasPayload) = true) :
+    ∀ e ∈ (stepAll cfg beh w k (.immediateChangeWith i d p)).2, ∀ key vis o, e = Ev.cb key vis o → key.method.isLife = true →
+      o.current = some (survivor {} (processRounds ⟨cfg, beh, i, k⟩ { core := { c with request := ⟨255, d, some p⟩ } })).canon := by
+  intro e he key vis o hk hl
+  simp only [stepAll, step, Op.inst, Op.name, hg] at he
+  rw [if_pos hcond, onCore_snd] at he
+  have e1 : (extChange ⟨cfg, beh, i, k⟩ d (some p) ⋙ processRequest ⟨cfg, beh, i, k⟩) { core := c } =
+      ((processRequest ⟨cfg, beh, i, k⟩ { core := { c with request := ⟨255, d, some p⟩ } }).1,
+       (extChange ⟨cfg, beh, i, k⟩ d (some p) { core := c }).2 ++
+       (processRequest ⟨cfg, beh, i, k⟩ { core := { c with request := ⟨255, d, some p⟩ } }).2) := rfl
+  rw [e1] at he
+  rcases List.mem_append.mp he with he | he
+  · rcases List.mem_append.mp he with he | he
+    · simp only [extChange, logEv] at he
+      split at he
+      · simp only [List.mem_singleton] at he; rw [hk] at he; cases he
+      · cases he
+    · exact processRequest_life_current _ _ e he key vis o hk hl
+  · simp only [List.mem_singleton] at he; rw [hk] at he; cases he
 
 
 /-- non-vacuity: instance 1 of a two-instance world; its request to state 2 is redirected by 2's entry guard to 1,
